@@ -242,30 +242,43 @@ func timeoutFromHeaders(headers metadata.MD) (time.Duration, bool) {
 		return 0, false
 	}
 	timeoutStr := vals[len(vals)-1]
-	if len(timeoutStr) < 2 {
+	// Per the gRPC specification, the value is one to eight ASCII
+	// digits followed by a single unit character.
+	if len(timeoutStr) < 2 || len(timeoutStr) > 9 {
 		return 0, false
 	}
-	timeout, err := strconv.Atoi(timeoutStr[:len(timeoutStr)-1])
-	if err != nil {
-		return 0, false
-	}
-	duration := time.Duration(timeout)
+	var unit time.Duration
 	switch timeoutStr[len(timeoutStr)-1] {
 	case 'H':
-		return duration * time.Hour, true
+		unit = time.Hour
 	case 'M':
-		return duration * time.Minute, true
+		unit = time.Minute
 	case 'S':
-		return duration * time.Second, true
+		unit = time.Second
 	case 'm':
-		return duration * time.Millisecond, true
+		unit = time.Millisecond
 	case 'u':
-		return duration * time.Microsecond, true
+		unit = time.Microsecond
 	case 'n':
-		return duration * time.Nanosecond, true
+		unit = time.Nanosecond
 	default:
 		return 0, false
 	}
+	digits := timeoutStr[:len(timeoutStr)-1]
+	for i := 0; i < len(digits); i++ {
+		if digits[i] < '0' || digits[i] > '9' {
+			return 0, false
+		}
+	}
+	timeout, err := strconv.ParseUint(digits, 10, 64)
+	if err != nil {
+		return 0, false
+	}
+	if timeout > uint64(math.MaxInt64)/uint64(unit) {
+		// would overflow; saturate instead of wrapping
+		return time.Duration(math.MaxInt64), true
+	}
+	return time.Duration(timeout) * unit, true
 }
 
 func (s *tunnelServer) getStream(streamID int64) (*tunnelServerStream, error) {
